@@ -42,24 +42,33 @@ def oracle_exception(c: Case, tr: Trace) -> Optional[str]:
         lr = raises[-1]
         if lr[1] != inner[1] or lr[2:5] != inner[2:5]:
             return f"parse_error blames rule {inner[1]} at {inner[2:5]} but the last raise hook was for rule {lr[1]} at {lr[2:5]}"
-        # position interval: between the start of the blamed rule's last attempt and the furthest point reached so far
+        # position interval: between the start of the blamed rule's attempt that has just ended (the last invocation of that rule
+        # to exit before the raise hook — not the last one entered: the rule may be recursive) and the furthest point reached so far
         blamed = inner[1]
         start = None
         furthest = 0
+        estack = []
+        at_raise = None
         for l in tr.events:
             p = l.split()
             if p[0] == 'E':
                 furthest = max(furthest, int(p[4]))
-                if p[1] == blamed:
-                    start = int(p[4])
+                estack.append((p[1], int(p[4])))
             elif p[0] == 'X':
                 furthest = max(furthest, int(p[3]))
+                if estack:
+                    rid, b0 = estack.pop()
+                    if rid == blamed:
+                        start = b0
             elif p[0] in ('st', 'su', 'fa', 'uw', 'a0'):
                 furthest = max(furthest, int(p[2]))      # where the attempt stood when the hook ran (before any rewinding)
             elif p[0] == 'ap':
                 furthest = max(furthest, int(p[5]))
-            if p[0] == 'ra' and p is not None and p[1] == blamed and l.split() == lr:
-                break
+            if p[0] == 'ra' and p[1] == blamed and p == lr:
+                # (kept for every such hook; the last one is the one whose exception reached the caller)
+                s0 = estack[-1][1] if (estack and estack[-1][0] == blamed) else start    # own failure hook (must_if): attempt still open
+                at_raise = (s0, furthest)
+        start, furthest = at_raise if at_raise is not None else (None, furthest)
         pos = int(inner[2])
         if start is not None and int(blamed) < 1000000 and not (start <= pos <= max(furthest, start)):
             return f"parse_error position {pos} outside [{start}, {furthest}] of the blamed rule's attempt"
